@@ -147,7 +147,7 @@ def _thaw(x):
     if isinstance(x, (list, tuple)):
         if x and isinstance(x[0], str) and x[0] in (
                 't', 's', 'nil', 'cat', 'nest', 'grp', 'line', 'softline',
-                'hardline', 'fc', 'ab', 'fill', 'align', 'hang', 'ann', 'v', 'c'):
+                'hardline', 'fc', 'ab', 'fill', 'align', 'hang', 'ann', 'v', 'c', 'sh'):
             if x[0] in ('cat', 'fill'):
                 return (x[0], [_thaw(c) for c in x[1]])
             return tuple(_thaw(c) if isinstance(c, (list, tuple)) else c for c in x)
